@@ -34,6 +34,18 @@ META = {
                 text="transcript comparison: the notifications drained after every step of exhaustive depth-4/5 sequences and rapid histories are compared (multiset, offline-before-online order, content) with the transcript the statement prescribes, computed by the reference model",
                 note="a re-bound address may or may not be reported offline for its previous holder (statement silent: lenient); one history shape is a listed known finding and is excluded from the random generator by construction while a dedicated sub-check keeps exercising it",
                 tech="model-based stateful property testing (rapid) with a notification-ledger oracle + bounded-exhaustive sequence enumeration"),
+    "C13": dict(level="exploration",
+                text="(a) synchronous model: StartHunt / StopHunt / DHCP-offer / received-ARP histories (requests, probes, announcements, replies with sender-IP and Ethernet-source variants, private off-LAN probe targets) against a model of the hunt list; after every step the frames on the connection are decoded by the reference ARP decoder and each forged frame (sender IP = router, sender MAC = host) must be explained by the model, each probe for an offered address must be rejected; (b) real time: batches of 12-24 concurrent scenarios with calls at drawn offsets within 8 s, observed for 17 s on timestamped connections: every forged frame falls into a hunt interval of its target (+1 s), every completed StopHunt is followed by a restoring ARP within one cycle, nothing after Close",
+                note="real-time attribution uses 1 s slack and one 6 s cycle + 2 s for the restore; the restore is not required when the handler was closed or the target re-hunted meanwhile; the loop's restoring ARP to ever-hunted MACs is allowed; the 4 s..6 s spoof period is real time so thorough depth is bounded by wall clock",
+                tech="model-based stateful property testing (rapid) of captured frames against a hunt-list model + timestamped real-time scenario batches"),
+    "C14": dict(level="exploration",
+                text="(a) synchronous model of the ICMPv6 hunt list over StartHunt/StopHunt/Close/RA histories with IPv4, global, link-local and address-less targets: a step is judged when every spoof loop of the process is parked (goroutine dump), every forged neighbour advertisement (type 136, TLLA = host MAC) must go to a hunted MAC, name a learned router, carry override + hop limit 255, never precede the first router or follow Close, and their number per step is bounded by loops x routers (idempotence of StartHunt); real-time batches as in C13 with the 2.0-2.8 s cycle; (b) router advertisements are serialised from generated structures (flags, preference, hop limit, lifetimes, timers, 0-3 prefix options with bits past the prefix length, MTU, RDNSS, DNSSL, route information, SLLA, unknown types, rotated option order, up to 4 RAs from 2 routers) into a reused, afterwards poisoned receive buffer and FindRouter / LANRouters are compared field by field with the structure",
+                note="a closed handler is documented unusable: after Close the history only observes; RAs are delivered four times (the handler processes one in four); the route information option is not among the fields the statement lists: only consistency is required of it; count bounds are skipped once a case ran 1.5 s",
+                tech="model-based stateful property testing (rapid) against a hunt-list model with goroutine-quiescence detection + round-trip from generated RA structures via an independent encoder + real-time scenario batches"),
+    "C19": dict(level="exploration",
+                text="batches of concurrent Ping/Ping6 calls on one session, each with a drawn reply script (early, duplicate, foreign id/sequence, echo request instead of reply, truncated, late, none, wrong family): the call must return nil exactly when a matching reply was injected before its timeout, ErrTimeout otherwise, never complete on a foreign reply, and the process-wide waiter table must be empty when all calls have returned (hook VerifPingWaiters); send errors must not leave a waiter behind",
+                note="late replies are injected only after the call returned (a reply racing the timeout is legitimately either outcome); scripts that could not be played in time under load are counted inconclusive, not judged",
+                tech="property-based testing (rapid) of generated concurrent call/reply schedules against a correlation model; waiter-table invariant via a build-tagged hook"),
     "C20": dict(level="exploration",
                 text="differential testing of every fastlog field appender against the standard library renderers: exhaustive over all uint16/uint8 values, every byte in every MAC position, all 256 IPv6 zero-group layouts x 5 group shapes (net.IP and netip.Addr), rapid-drawn multi-field lines through ToString and Write, over-long arrays after prefixes of every length, and String() of every valid view / table entry",
                 note="array framing (\"[a, b,]\") is taken from the code, the statement only fixes element texts and brackets; lines whose reference text exceeds the 2048-byte buffer are outside the statement (documented precondition) except for the three array appenders",
